@@ -74,7 +74,7 @@ func vpMitmExchange(c *vpDuplex, substitute *[32]byte) (*vpMitmLeg, bool) {
 	var remEphPub [32]byte
 	copy(remEphPub[:], bv.Value)
 	if substitute != nil {
-		return nil, false // the adversary does not know the secret key of what it presented
+		locEphPub = substitute // what the victim believes our key is
 	}
 	lo, hi := sort32(locEphPub, &remEphPub)
 	transcript := merlin.NewTranscript("TENDERMINT_SECRET_CONNECTION_TRANSCRIPT_HASH")
@@ -84,6 +84,11 @@ func vpMitmExchange(c *vpDuplex, substitute *[32]byte) (*vpMitmLeg, bool) {
 	dh, err := computeDHSecret(&remEphPub, locEphPriv)
 	if err != nil {
 		return nil, false
+	}
+	if substitute != nil {
+		// the points the adversary presents here have small order: whatever the victim's secret
+		// key, the "shared secret" it would compute from them is all zeros, and everybody knows it
+		dh = new([32]byte)
 	}
 	transcript.AppendMessage(labelDHSecret, dh[:])
 	recvSecret, sendSecret := deriveSecrets(dh, locIsLeast)
@@ -196,8 +201,11 @@ func VP_C16_HandshakeMITM() {
 		var lowOrder [32]byte
 		h, _ := hex.DecodeString(vpLowOrderPoints[vp.Choice("low-order-point", len(vpLowOrderPoints))])
 		copy(lowOrder[:], h)
-		vpMitmExchange(mb, &lowOrder)
-		mb.Close()
+		if leg, ok := vpMitmExchange(mb, &lowOrder); ok {
+			sig, _ := keyM.Sign(leg.challenge[:])
+			presented = keyM.PubKey()
+			leg.sendAuth(presented, sig)
+		}
 	case 6: // reflection: B's own ephemeral key and B's own auth message are sent back to it
 		var bv gogotypes.BytesValue
 		if _, err := protoio.NewDelimitedReader(mb, 1024*1024).ReadMsg(&bv); err == nil {
